@@ -117,9 +117,9 @@ MANIFEST_META = {
         'note': 'All-zero syndromes and the floor(ec/2) correction capacity follow from EC = data*x^ec mod g with g = prod (x - alpha^i); that algebraic step is NOT mechanised (model-level mathematics, no code involved). No assumed contract on the path.',
     },
     'C18': {
-        'text': 'Kani proves, with a loop-free harness over the complete finite domain (40 sizes x 3 frame shapes, symbolic), that SvgBuilder::image_placement yields a frame whose side is an odd whole number of modules >= 5, below 40% of the symbol side, at least 8 modules clear of every edge (finder + separator), with n - side even (so the centred frame lies on module boundaries), non-decreasing in the version, and an image side that is a whole number between 1 and the frame side.',
-        'note': 'PARTIAL: only the default-placement table is decided. The centring / parity adjustment / size, gap, position overrides live inside SvgBuilder::image(), a function interleaving f64 arithmetic with string formatting that neither Verus nor Kani can take a contract on; those clauses are not claimed.',
-        'technique': 'Kani loop-free harness over kani::any() on the real function (appended harness module in a scratch copy)',
+        'text': 'Kani proves, with a loop-free harness over the complete finite domain (40 sizes x 3 frame shapes, symbolic), that SvgBuilder::image_placement yields a frame whose side is an odd whole number of modules >= 5, below 40% of the symbol side, at least 8 modules clear of every edge (finder + separator), with n - side even (so the centred frame lies on module boundaries), non-decreasing in the version, and an image side that is a whole number between 1 and the frame side. BOUNDED stand-in for SvgBuilder::image() (centring, parity adjustment, explicit size/gap/position), a function interleaving f64 arithmetic with string formatting on which neither Verus nor Kani can take a contract: the native harness renders every version x shape x margin 0..16 with default placement (2040 cases, exhaustive for the defaults) and 800/4000 sampled real-valued overrides through the public API and reads the frame <rect> and the <image> element back from the SVG text (centred, module-aligned, < 40%, clear of finders, monotone, image inside and centred, requested size/gap/position honoured with at most one module of alignment adjustment).',
+        'note': 'PROOF for the default-placement table (complete finite domain), BOUNDED (labelled, never counted as proved) for everything inside SvgBuilder::image().',
+        'technique': 'Kani loop-free harness over kani::any() on the real function (appended harness module in a scratch copy) + bounded native harness for the string-building function',
     },
     'C17': {
         'text': 'Verus verifies the real src/wasm.rs (extracted like any other module): SvgOptions::new establishes, and every setter preserves for ANY argument, the representation invariant (three colour vectors of length 4, size/position vectors of length 0 or 2); under that invariant qr_svg is proved free of index panics and of the Invalid-color-length panic of the builder, and qr()/bool_to_u8 return size*size bytes; qr and qr_svg call the same QRCode::new as the native builder with mode and mask unset. BOUNDED stand-in for the clauses no contract reaches (colour-string parsing in color_to_code: str bytes; SVG text equality: format!/String): the real wasm.rs is compiled natively in a scratch copy and native/c17_harness.rs runs ~70 000 colour strings (all strings of up to 4 tokens over hex digits, other letters, signs, blanks, NUL, multi-byte characters) through the three colour setters and qr_svg, position arrays of length 0..4 with/without size and image, and compares qr()/qr_svg() with the native builders over 7 contents x 6 shapes x 3 margins x levels/versions/colours/image settings. Two genuine defects were found and fixed (qr_svg image_position guard: Verus bounds obligation; colour setters panicking on malformed strings: bounded harness).',
